@@ -172,6 +172,9 @@ func planCase(ctx *Ctx, s *schema.Schema, tg planTarget, x reflect.Value, confor
 	case dimpl == "err":
 		ctx.Res.Violate(report.Violation{Property: "C01", Oracle: "roundtrip", Key: "plan:decode-error:" + s.Dyns[tg.dyn].GoType, Detail: "the library cannot decode its own encoding", Line: line})
 	default:
+		if back != nil {
+			c06Walk(ctx, dline, reflect.ValueOf(back), 0)
+		}
 		got := strings.TrimPrefix(dimpl, "ok ")
 		if normContent(got) != normContent(val) {
 			ctx.Res.Violate(report.Violation{Property: "C01", Oracle: "roundtrip", Key: "plan:content-differs:" + s.Dyns[tg.dyn].GoType, Detail: "decoded value differs from the original: " + firstDiff(normContent(val), normContent(got)), Line: line})
@@ -201,6 +204,7 @@ func planDecCase(ctx *Ctx, s *schema.Schema, tg planTarget, b []byte, origin str
 	in := append([]byte{}, b...)
 	impl, back := unmarshalInto(s, tg, in)
 	if back != nil {
+		c06Walk(ctx, line, reflect.ValueOf(back), 0)
 		// ---- C18 (binary): whatever is accepted re-encodes to a fixed point ----
 		r1, b1 := marshalGuard(back, tg.tag)
 		if r1 == "panic" {
@@ -340,6 +344,7 @@ func runPlan(ctx *Ctx) {
 			}
 		}
 	}
+	c06Adversarial(ctx, r)
 	for _, b := range corpusBinary() {
 		planDecCase(ctx, s, reqT, b, "corpus")
 		planDecCase(ctx, s, respT, b, "corpus")
